@@ -73,6 +73,12 @@ CertPureFailures(ev) ==
   IF \A i \in 1..Len(ev.outs) : ev.outs[i] = ev.outs[1] /\ ev.exits[i] = ev.exits[1] THEN {}
   ELSE {"gen-certurl output depends on the order in which the files of -sctDir were created"}
 
+\* defaults compose: what gen-signedexchange writes (with or without -version) is a file of that version which
+\* dump-signedexchange -verify takes from a file, from standard input and from a server that labels it correctly
+SxgDefaultFailures(ev) ==
+  (IF ev.gen_exit = 0 /\ RefRead(ev.file).res = "ok" /\ RefRead(ev.file).x.ver = ev.ver THEN {} ELSE {"gen-signedexchange did not write an exchange of the expected version"})
+  \cup (IF ev.dump_exit = 0 /\ ev.valid THEN {} ELSE {"dump-signedexchange -verify does not take gen-signedexchange's output"})
+
 SxgFailures(ev) ==
   LET rr == RefRead(ev.file) IN
   (IF ev.gen_exit = 0 THEN {} ELSE {"gen-signedexchange failed on flags within the documented range"})
@@ -121,7 +127,7 @@ HarFailures(ev) ==
              THEN {} ELSE {"bundle from HAR does not hold exactly the GET entries with banned / pseudo headers dropped"})
 
 Failures(ev) == CASE ev.kind = "dirbundle" -> DirFailures(ev) [] ev.kind = "ibcli" -> IbFailures(ev) [] ev.kind = "certcli" -> CertFailures(ev) [] ev.kind = "certpure" -> CertPureFailures(ev)
-                  [] ev.kind = "sxgcli" -> SxgFailures(ev) [] ev.kind = "sxgflags" -> SxgFlagFailures(ev) [] ev.kind = "harcli" -> HarFailures(ev)
+                  [] ev.kind = "sxgcli" -> SxgFailures(ev) [] ev.kind = "sxgflags" -> SxgFlagFailures(ev) [] ev.kind = "sxgdefaults" -> SxgDefaultFailures(ev) [] ev.kind = "harcli" -> HarFailures(ev)
 TraceInit == l = 1
 TraceNext ==
   /\ l <= Len(Trace)
